@@ -392,8 +392,10 @@ func teUnreadable(e teStored) bool {
 	if e.dur == "!" {
 		return false
 	}
+	// the decimal text of a uint64 is read like the number since the repair c12-12 (a duration column that was
+	// consolidated to strings); before, every duration that came back as a JSON string was unreadable
 	_, err := strconv.ParseUint(e.dur, 10, 64)
-	return err != nil || e.durStr
+	return err != nil
 }
 
 // the first attribute that cannot be converted is a KeyValue without AnyValue
@@ -447,20 +449,40 @@ func teFullOf(e teStored) (teFull, bool) {
 	st, e1 := strconv.ParseUint(e.start, 10, 64)
 	en, e2 := strconv.ParseUint(e.end, 10, 64)
 	du, e3 := strconv.ParseUint(e.dur, 10, 64)
-	if e1 != nil || e2 != nil || e3 != nil || e.durStr || (en >= st && du != en-st) || (en < st && du != 0) {
+	if e1 != nil || e2 != nil || e3 != nil || (en >= st && du != en-st) || (en < st && du != 0) {
 		return teFull{}, false // (a span that ends before it starts is stored with duration 0)
 	}
 	return teFull{e.trace, e.sid, *e.pid, *e.svc, *e.name, *e.status, st, en, du}, true
 }
 
 func teJudge(op *teOp, w *teWorkerOut, v *teView) (fails []PropFail, tags []string) {
+	// traces with a span whose numeric duration is returned as a JSON string (another document of the block carries a
+	// string in that column): the views must read them all the same (repair c12-12).  What a view gets wrong about such a
+	// dataset is reported under the name the defect had.
+	textDur := map[string]teStored{}
+	for _, e := range v.stored {
+		if _, err := strconv.ParseUint(e.dur, 10, 64); err == nil && e.durStr {
+			textDur[e.trace] = e
+		}
+	}
+	if len(textDur) > 0 {
+		tags = append(tags, "duration-column-consolidated-to-strings")
+	}
 	fail := func(sig, format string, a ...interface{}) {
+		msg := fmt.Sprintf(format, a...)
+		if len(textDur) > 0 && (strings.HasPrefix(sig, "trace-dep/") || strings.HasPrefix(sig, "trace-red/") || strings.HasPrefix(sig, "trace-gantt/")) {
+			for _, e := range textDur {
+				msg = fmt.Sprintf("span %s of trace %s was stored with the numeric duration %s and is returned with the duration as a JSON string, because another document of the block carries a string in that column; [%s] %s", e.sid, e.trace, e.dur, sig, msg)
+				break
+			}
+			sig = "trace-views/string-in-duration-column-hides-every-span-of-the-block"
+		}
 		for _, f := range fails {
 			if f.Sig == sig {
 				return
 			}
 		}
-		fails = append(fails, PropFail{Sig: sig, Msg: trunc(fmt.Sprintf(format, a...), 500)})
+		fails = append(fails, PropFail{Sig: sig, Msg: trunc(msg, 500)})
 	}
 	// ---- ingest: every accepted span is stored once per delivery, with ITS resource's service
 	named := map[string]bool{}
@@ -888,12 +910,6 @@ func teJudge(op *teOp, w *teWorkerOut, v *teView) (fails []PropFail, tags []stri
 	for _, n := range ids {
 		if n > 1 {
 			uniq = false
-		}
-	}
-	for _, e := range v.stored {
-		if _, err := strconv.ParseUint(e.dur, 10, 64); err == nil && e.durStr {
-			fail("trace-views/string-in-duration-column-hides-every-span-of-the-block", "span %s of trace %s was stored with the numeric duration %s and is returned with the duration as a JSON string, because another document of the block carries a string in that column: none of the views can read it (%d of %d stored records are unreadable)", e.sid, e.trace, e.dur, unreadable, len(v.stored))
-			break
 		}
 	}
 	blanked := false
